@@ -149,7 +149,7 @@ def explore(ctx, n):
 def model_compare(cases):
     rows = []
     for c, layers, trips, real_shape, _ in cases:
-        v = f"Obj {'true' if c else 'false'}"
+        v = f"(Obj {'true' if c else 'false'})"
         for (cl, kf) in layers:
             v = f"(gen_wrap bool cv {v} {'true' if kf else 'false'})"
         exp = "[" + "; ".join(f"({'true' if a else 'false'}, {'true' if b else 'false'})" for a, b in real_shape) + "]"
